@@ -35,8 +35,8 @@ def _configs(tier, full):
     a_axis = [dict(red=r, ncomp=c, w=False) for r in RED_PLAIN for c in (1, 2, 3)] + \
              [dict(red=r, ncomp=c, w=True) for r in RED_W for c in (1, 2, 3)]
     b_axis = [dict(block=bk, region=rg, center=ce, drop=dr, form=fm)
-              for bk in ("spacing", "shape") for rg in ("given", "inferred") for ce in (False, True)
-              for dr in (True, False) for fm in ("1d", "2d", "2dF", "mixed", "int", "int_e")]
+              for bk in ("spacing", "shape", "spacing_nd_s", "spacing_nd_r") for rg in ("given", "inferred") for ce in (False, True)
+              for dr in (True, False) for fm in ("1d", "2d", "2dF", "mixed", "int", "int_e", "far")]
     b0 = dict(block="spacing", region="given", center=False, drop=True, form="1d")
     if full:
         for a in a_axis:
@@ -48,7 +48,7 @@ def _configs(tier, full):
     for b in b_axis:
         if b == b0:
             continue
-        if b["form"] in ("mixed", "int", "int_e") and (b["block"] != "spacing" or not b["drop"]):
+        if b["form"] in ("mixed", "int", "int_e", "far") and (b["block"] != "spacing" or not b["drop"]):
             continue   # quick: the representation forms are crossed with region and centre options only
         yield dict(dict(red="mean", ncomp=1, w=False), **b)
         yield dict(dict(red="average", ncomp=2, w=True), **b)
@@ -143,13 +143,27 @@ def run(case, rec):
         coords = (e.astype(np.int64), n.astype(np.int64), extra)
     if form == "int_e":
         coords = (e.astype(np.int64), n, extra)
+    off_e = off_n = 0.0
+    if form == "far":
+        # large projected-coordinate magnitudes (same geometry shifted): exact in float64, not in float32
+        off_e, off_n = 7460000.0, 430000.0
+        e, n = e + off_e, n + off_n
+        coords = (e, n, extra)
     kw = dict(center_coordinates=case["center"], drop_coords=case["drop"])
+    csize = 1.0 * scale
     if case["block"] == "spacing":
         kw["spacing"] = 1.0 * scale
+    elif case["block"] in ("spacing_nd_s", "spacing_nd_r"):
+        # a spacing that does not divide the region: adjust='spacing' stretches it to the unit blocks, adjust='region' keeps blocks of
+        # 0.9 (the sites keep their block either way, the centres differ); both modes in one process (seed C09-r2_1: a cache keyed without adjust)
+        kw["spacing"] = 0.9 * scale
+        kw["adjust"] = "spacing" if case["block"].endswith("_s") else "region"
+        if kw["adjust"] == "region":
+            csize = 0.9 * scale
     else:
         kw["shape"] = (nby, nbx)
     if case["region"] == "given":
-        kw["region"] = (0.0, float(nbx) * scale, 0.0, float(nby) * scale)
+        kw["region"] = (off_e, float(nbx) * scale + off_e, off_n, float(nby) * scale + off_n)
     red = _reduction(case["red"])
     d_arg = rs(data[0]) if ncomp == 1 else tuple(rs(d) for d in data)
     w_arg = None if wts is None else (rs(wts[0]) if ncomp == 1 else tuple(rs(w) for w in wts))
@@ -190,8 +204,9 @@ def run(case, rec):
                       % (b, c, float(gdata[c][k]), members, float(want)))
         if case["center"]:
             bx, by = b % nbx, b // nbx
-            rec.check(float(gcoords[0][k]) == (bx + 0.5) * scale and float(gcoords[1][k]) == (by + 0.5) * scale,
-                      "block %d: centre coordinates (%r, %r) != (%r, %r)" % (b, gcoords[0][k], gcoords[1][k], (bx + 0.5) * scale, (by + 0.5) * scale))
+            ce_, cn_ = (bx + 0.5) * csize + off_e, (by + 0.5) * csize + off_n
+            rec.check(abs(float(gcoords[0][k]) - ce_) <= 1e-9 * max(1.0, abs(ce_)) and abs(float(gcoords[1][k]) - cn_) <= 1e-9 * max(1.0, abs(cn_)),
+                      "block %d: centre coordinates (%r, %r) != (%r, %r)" % (b, gcoords[0][k], gcoords[1][k], ce_, cn_))
         else:
             we = B.reduce_exact(cred, [e[i] for i in members])
             wn = B.reduce_exact(cred, [n[i] for i in members])
